@@ -65,11 +65,12 @@ Proof.
 Qed.
 
 Lemma loadConfig_inv cap i n1 n2 t : loadConfig cap i = Ok (Some n1, Some n2, Some t) ->
-  exists d, i = Doc d /\ load cap d = Ok (n1, n2, t).
+  exists st d, i = Doc st d /\ load cap d = Ok (n1, n2, t).
 Proof.
-  destruct i as [| |d]; simpl; try discriminate.
-  destruct (load cap d) as [[[a b] t']| | |] eqn:E; simpl; try discriminate.
-  intros H. inversion H; subst. eauto.
+  destruct i as [| |st d]; simpl; try discriminate.
+  destruct st; try discriminate;
+    (destruct (load cap d) as [[[a b] t']| | |] eqn:E; simpl; try discriminate;
+     intros H; inversion H; subst; eauto).
 Qed.
 
 Lemma load_inv cap d s1 s2 t : load cap d = Ok (s1, s2, t) ->
@@ -102,7 +103,7 @@ Proof.
     + apply configChanged_fresh; auto.
     + apply configChanged_fresh; auto. simpl. rewrite pmasked_idem. reflexivity.
   - inversion H; subst; simpl. split; auto.
-    destruct (loadConfig_inv _ _ _ _ _ HL) as (d & -> & Hl).
+    destruct (loadConfig_inv _ _ _ _ _ HL) as (st & d & -> & Hl).
     destruct (load_inv _ _ _ _ _ Hl) as ((c1 & _ & N1) & (c2 & _ & N2) & _).
     repeat split; auto; eapply newSubnet_idem; eauto.
 Qed.
@@ -110,22 +111,25 @@ Qed.
 (* ---------------------------------------------------------------- *)
 (* loading what was saved *)
 
-Lemma known_restart_false s1 t l : known_C18_restart s1 t = false -> In l t -> allocated l = true ->
+Lemma known_restart_false s1 t l :
+  known_C18_restart t = false -> alloc_in_net1 s1 t = true -> In l t -> allocated l = true ->
   rec_ok s1 (l_rec l) = true.
 Proof.
-  unfold known_C18_restart. intros H Hin Ha.
-  destruct (rec_ok s1 (l_rec l)) eqn:E; auto.
-  exfalso. assert (Hex : existsb (fun l => allocated l && negb (avalid (r_ip (l_rec l)) && contains (s_lan (n_cfg s1)) (r_ip (l_rec l)) && negb (bytes_eqb (r_cid (l_rec l)) []))) t = true).
-  { apply existsb_exists. exists l. split; auto. rewrite Ha. unfold rec_ok in E. rewrite E. reflexivity. }
+  unfold known_C18_restart, alloc_in_net1. intros Hk Hi Hin Ha.
+  rewrite forallb_forall in Hi. specialize (Hi l Hin). rewrite Ha in Hi. simpl in Hi.
+  unfold rec_ok. rewrite Hi. simpl.
+  destruct (bytes_eqb (r_cid (l_rec l)) []) eqn:E; auto.
+  exfalso. assert (Hex : existsb (fun l => allocated l && bytes_eqb (r_cid (l_rec l)) []) t = true).
+  { apply existsb_exists. exists l. split; auto. rewrite Ha, E. reflexivity. }
   congruence.
 Qed.
 
 Lemma load_saved cap n1 n2 t ord :
   newSubnet (n_cfg n1) = Ok n1 -> newSubnet (n_cfg n2) = Ok n2 ->
-  known_C18_restart n1 t = false -> NoDup (map l_cid t) -> Permutation ord t ->
+  known_C18_restart t = false -> alloc_in_net1 n1 t = true -> NoDup (map l_cid t) -> Permutation ord t ->
   load cap (save n1 n2 ord) = Ok (n1, n2, map (restored cap n2) (save_leases ord)).
 Proof.
-  intros H1 H2 Hk Hnd Hp. unfold load, save; simpl. rewrite H1, H2. simpl.
+  intros H1 H2 Hk Hi Hnd Hp. unfold load, save; simpl. rewrite H1, H2. simpl.
   rewrite (load_loop_all_ok cap n1 n2 (save_leases ord) []); simpl; auto.
   - intros r Hr. unfold save_leases in Hr. apply in_map_iff in Hr. destruct Hr as (l & <- & Hl).
     apply filter_In in Hl. destruct Hl as [Hin Ha]. split.
@@ -142,48 +146,121 @@ Proof.
   unfold bindings, acked_bindings, save_leases. rewrite !map_map. apply map_ext. intros l. reflexivity.
 Qed.
 
-Section Yaml.
-  (* gopkg.in/yaml.v2 as an oracle: the text type, Marshal and Unmarshal (None = error) *)
+(* inputs that cannot restore anything *)
+Lemma new_no_load_empty c cap i s' :
+  (forall n1 n2 t, loadConfig cap i <> Ok (Some n1, Some n2, Some t)) ->
+  new c cap i = Ok s' -> d_table s' = [].
+Proof.
+  intros Hno H.
+  destruct (new_cases c cap i) as [[_ E]|[(Hok & _ & E)|[(Hok & _ & E)|(Hok & n1 & n2 & t & HL & _)]]];
+    try (rewrite E in H; try discriminate).
+  - destruct (reset_inv _ _ H) as (_ & _ & Ht). exact Ht.
+  - exfalso. eapply Hno; eauto.
+Qed.
+
+Lemma new_noleases_empty c cap st d s' : d_leases d = [] -> new c cap (Doc st d) = Ok s' -> d_table s' = [].
+Proof.
+  intros Hd H.
+  destruct (new_cases c cap (Doc st d)) as [[_ E]|[(Hok & _ & E)|[(Hok & _ & E)|(Hok & n1 & n2 & t & HL & _ & _ & E)]]];
+    rewrite E in H; try discriminate.
+  - destruct (reset_inv _ _ H) as (_ & _ & Ht). exact Ht.
+  - inversion H; subst; simpl.
+    destruct (loadConfig_inv _ _ _ _ _ HL) as (st' & d' & Ei & Hl). inversion Ei; subst.
+    destruct (load_inv _ _ _ _ _ Hl) as (_ & _ & ->). rewrite Hd. reflexivity.
+Qed.
+
+Definition empty_doc : doc := {| d_net1 := None; d_net2 := None; d_leases := [] |}.
+
+Section Oracle.
+  (* The file system, the integrity line and gopkg.in/yaml.v2 as an oracle:
+       print d = the text saveConfig writes for document d (checksum line + yaml.Marshal),
+       read x  = what loadConfig makes of text x: ReadErr (unreadable / YAML error) or Doc verdict document. *)
   Variable text : Type.
   Variable print : doc -> text.
-  Variable parse : text -> option doc.
-  Definition yaml_roundtrip : Prop := forall d, parse (print d) = Some d.
+  Variable read : text -> input.
+  Definition yaml_roundtrip : Prop := forall d, read (print d) = Doc SumOk d.
 
-  Definition input_of_text (x : text) : input :=
-    match parse x with Some d => Doc d | None => ReadErr end.
+  (* loading the saved document itself (any integrity verdict but "mismatch") *)
+  Lemma restart_core :
+    forall c cap0 i0 s cap t ord st,
+      st <> SumBad ->
+      home_masked c ->
+      new c cap0 i0 = Ok s ->
+      known_C18_restart t = false -> alloc_in_net1 (d_n1 s) t = true ->
+      NoDup (map l_cid t) -> Permutation ord t ->
+      exists s', new c cap (Doc st (save (d_n1 s) (d_n2 s) ord)) = Ok s'
+                 /\ d_n1 s' = d_n1 s /\ d_n2 s' = d_n2 s
+                 /\ d_table s' = map (restored cap (d_n2 s)) (save_leases ord)
+                 /\ Permutation (bindings (d_table s')) (acked_bindings t).
+  Proof.
+    intros c cap0 i0 s cap t ord st Hst Hm Hnew Hk Hi Hnd Hp.
+    destruct (new_stable _ _ _ _ Hm Hnew) as (Hok & S1 & S2 & C1 & C2).
+    pose proof (load_saved cap _ _ _ _ S1 S2 Hk Hi Hnd Hp) as HL.
+    unfold cfg_ok in Hok. apply andb_true_iff in Hok. destruct Hok as [Hv Hc].
+    eexists. split.
+    - unfold new. rewrite Hv, Hc. simpl.
+      destruct st; [| |congruence]; rewrite HL; simpl; rewrite C1, C2; simpl; reflexivity.
+    - simpl. repeat split; auto.
+      rewrite bindings_restored. unfold acked_bindings.
+      apply Permutation_map. apply Permutation_filter'. exact Hp.
+  Qed.
 
-  (* C18_restart (on the complement of the recorded class): take ANY state [s] the constructor returned for
-     configuration [c], let the lease table evolve to ANY table [t] with distinct keys whose Allocated leases
-     pass the file validation, save it in ANY map order [ord], and construct again (the capture state [cap]
-     of the session may have changed): the new handler carries the same subnets and exactly the acknowledged
-     (client id, MAC, IP) bindings. *)
+  (* C18_restart: take ANY state [s] the constructor returned for configuration [c], let the lease table evolve
+     to ANY table [t] with distinct keys (outside the recorded class, satisfying the server's invariant), save
+     it in ANY map order [ord], and construct again (the capture state [cap] of the session may have changed):
+     the new handler carries the same subnets and exactly the acknowledged (client id, MAC, IP) bindings. *)
   Lemma restart_partial :
     yaml_roundtrip ->
     forall c cap0 i0 s cap t ord,
       home_masked c ->
       new c cap0 i0 = Ok s ->
-      known_C18_restart (d_n1 s) t = false ->
+      known_C18_restart t = false -> alloc_in_net1 (d_n1 s) t = true ->
       NoDup (map l_cid t) -> Permutation ord t ->
-      exists s', new c cap (input_of_text (print (save (d_n1 s) (d_n2 s) ord))) = Ok s'
+      exists s', new c cap (read (print (save (d_n1 s) (d_n2 s) ord))) = Ok s'
                  /\ d_n1 s' = d_n1 s /\ d_n2 s' = d_n2 s
                  /\ d_table s' = map (restored cap (d_n2 s)) (save_leases ord)
                  /\ Permutation (bindings (d_table s')) (acked_bindings t).
   Proof.
-    intros Hy c cap0 i0 s cap t ord Hm Hnew Hk Hnd Hp.
-    destruct (new_stable _ _ _ _ Hm Hnew) as (Hok & S1 & S2 & C1 & C2).
-    unfold input_of_text. rewrite Hy.
-    pose proof (load_saved cap _ _ _ _ S1 S2 Hk Hnd Hp) as HL.
-    unfold cfg_ok in Hok. apply andb_true_iff in Hok. destruct Hok as [Hv Hc].
-    eexists. split.
-    - unfold new. rewrite Hv, Hc. simpl. rewrite HL. simpl. rewrite C1, C2. simpl. reflexivity.
-    - simpl. repeat split; auto.
-      rewrite bindings_restored. unfold acked_bindings.
-      apply Permutation_map. apply Permutation_filter'. exact Hp.
+    intros Hy c cap0 i0 s cap t ord Hm Hnew Hk Hi Hnd Hp. rewrite Hy.
+    eapply restart_core; eauto. discriminate.
   Qed.
-End Yaml.
 
-(* the full statement is refuted by the faithful model: an acknowledged lease with an empty client id
-   (or an address outside net1) is dropped by the validation. The oracle is instantiated by the identity. *)
+  (* The crash-point / corruption clause.  [dmg x y]: text x is a damaged version of text y (the damage model:
+     truncation at a byte offset, substitution, line deletion/duplication ... whatever the integrity line is
+     trusted to detect).  [checksum_detects]: reading a damaged version of a saved file gives an error, or a
+     checksum mismatch, or the original document (damage confined to the checksum line itself), or — when so
+     little is left that there is no checksum line — a document without leases. *)
+  Variable dmg : text -> text -> Prop.
+  Definition checksum_detects : Prop :=
+    forall d x, dmg x (print d) ->
+      read x = ReadErr
+      \/ (exists d', read x = Doc SumBad d')
+      \/ (exists st, st <> SumBad /\ read x = Doc st d)
+      \/ (exists d', read x = Doc SumAbsent d' /\ d_leases d' = []).
+
+  Lemma damaged_intact_or_empty :
+    checksum_detects ->
+    forall c cap0 i0 s cap t ord x,
+      home_masked c ->
+      new c cap0 i0 = Ok s ->
+      known_C18_restart t = false -> alloc_in_net1 (d_n1 s) t = true ->
+      NoDup (map l_cid t) -> Permutation ord t ->
+      dmg x (print (save (d_n1 s) (d_n2 s) ord)) ->
+      (exists s', new c cap (read x) = Ok s' /\ Permutation (bindings (d_table s')) (acked_bindings t))
+      \/ (forall s', new c cap (read x) = Ok s' -> d_table s' = []).
+  Proof.
+    intros Hd c cap0 i0 s cap t ord x Hm Hnew Hk Hi Hnd Hp Hx.
+    destruct (Hd _ _ Hx) as [E|[[d' E]|[[st [Hst E]]|[d' [E Hl]]]]]; rewrite E.
+    - right. intros s'. apply new_no_load_empty. intros n1 n2 t0. simpl. discriminate.
+    - right. intros s'. apply new_no_load_empty. intros n1 n2 t0. simpl. discriminate.
+    - left. destruct (restart_core c cap0 i0 s cap t ord st Hst Hm Hnew Hk Hi Hnd Hp) as (s' & H1 & _ & _ & _ & H5).
+      exists s'. auto.
+    - right. intros s'. apply new_noleases_empty. exact Hl.
+  Qed.
+End Oracle.
+
+(* the full restart statement is refuted by the faithful model: an acknowledged lease with an empty client id is
+   dropped by the validation.  The oracle is instantiated by the identity. *)
 Definition ex_rec_nocid : lease_rec :=
   {| r_cid := []; r_state := 2%Z; r_mac := [2; 0; 0; 0; 0; 1]; r_ip := A4 3232235532; r_expiry := 1000%Z |}.
 Definition ex_rec_offnet : lease_rec :=
@@ -192,29 +269,51 @@ Definition ex_rec_offnet : lease_rec :=
 Lemma restart_refuted :
   exists c s t,
     home_masked c /\ new c (fun _ => false) ReadErr = Ok s /\ NoDup (map l_cid t)
-    /\ known_C18_restart (d_n1 s) t = true
-    /\ exists s', new c (fun _ => false) (input_of_text doc Some (save (d_n1 s) (d_n2 s) t)) = Ok s'
+    /\ alloc_in_net1 (d_n1 s) t = true
+    /\ known_C18_restart t = true
+    /\ exists s', new c (fun _ => false) (Doc SumOk (save (d_n1 s) (d_n2 s) t)) = Ok s'
                   /\ ~ Permutation (bindings (d_table s')) (acked_bindings t).
 Proof.
   exists ex_cfg.
   destruct (new ex_cfg (fun _ => false) ReadErr) as [s| | |] eqn:E; try (vm_compute in E; discriminate).
-  exists s, [{| l_rec := ex_rec_nocid; l_sub := 1 |}; {| l_rec := ex_rec_offnet; l_sub := 1 |}].
+  exists s, [{| l_rec := ex_rec_nocid; l_sub := 1 |}].
   vm_compute in E. inversion E; subst; clear E.
   split; [reflexivity|]. split; [reflexivity|].
   split; [repeat constructor; simpl; intuition discriminate|].
-  split; [vm_compute; reflexivity|].
+  split; [vm_compute; reflexivity|]. split; [vm_compute; reflexivity|].
+  eexists. split; [vm_compute; reflexivity|].
+  intros HP. apply Permutation_nil in HP. discriminate.
+Qed.
+
+(* the invariant is needed too: an Allocated lease outside net1 (not reachable since /repo 7baf630) is dropped *)
+Lemma restart_needs_invariant :
+  exists c s t,
+    home_masked c /\ new c (fun _ => false) ReadErr = Ok s /\ NoDup (map l_cid t)
+    /\ known_C18_restart t = false /\ alloc_in_net1 (d_n1 s) t = false
+    /\ exists s', new c (fun _ => false) (Doc SumOk (save (d_n1 s) (d_n2 s) t)) = Ok s'
+                  /\ ~ Permutation (bindings (d_table s')) (acked_bindings t).
+Proof.
+  exists ex_cfg.
+  destruct (new ex_cfg (fun _ => false) ReadErr) as [s| | |] eqn:E; try (vm_compute in E; discriminate).
+  exists s, [{| l_rec := ex_rec_offnet; l_sub := 1 |}].
+  vm_compute in E. inversion E; subst; clear E.
+  split; [reflexivity|]. split; [reflexivity|].
+  split; [repeat constructor; simpl; intuition discriminate|].
+  split; [vm_compute; reflexivity|]. split; [vm_compute; reflexivity|].
   eexists. split; [vm_compute; reflexivity|].
   intros HP. apply Permutation_nil in HP. discriminate.
 Qed.
 
 Example restart_nonvacuous :
   exists s, home_masked ex_cfg /\ new ex_cfg (fun _ => false) ReadErr = Ok s
-    /\ known_C18_restart (d_n1 s) [{| l_rec := ex_rec; l_sub := 1 |}] = false
+    /\ known_C18_restart [{| l_rec := ex_rec; l_sub := 1 |}] = false
+    /\ alloc_in_net1 (d_n1 s) [{| l_rec := ex_rec; l_sub := 1 |}] = true
     /\ acked_bindings [{| l_rec := ex_rec; l_sub := 1 |}] <> [].
 Proof.
   destruct (new ex_cfg (fun _ => false) ReadErr) as [s| | |] eqn:E; try (vm_compute in E; discriminate).
   exists s. vm_compute in E. inversion E; subst; clear E.
-  split; [reflexivity|]. split; [reflexivity|]. split; [vm_compute; reflexivity|discriminate].
+  split; [reflexivity|]. split; [reflexivity|]. split; [vm_compute; reflexivity|].
+  split; [vm_compute; reflexivity|discriminate].
 Qed.
 
 (* ---------------------------------------------------------------- *)
@@ -224,7 +323,7 @@ Lemma new_table_filters c cap i s : new c cap i = Ok s ->
   forall l, In l (d_table s) ->
     allocated l = true
     /\ r_cid (l_rec l) <> []
-    /\ (exists d, i = Doc d /\ In (l_rec l) (d_leases d))
+    /\ (exists st d, i = Doc st d /\ In (l_rec l) (d_leases d))
     /\ (known_C18_bits c i = false -> contains (c_home c) (r_ip (l_rec l)) = true).
 Proof.
   intros H l Hin.
@@ -232,7 +331,7 @@ Proof.
     rewrite E in H; try discriminate.
   - destruct (reset_inv _ _ H) as (_ & _ & Ht). rewrite Ht in Hin. destruct Hin.
   - inversion H; subst; simpl in *.
-    destruct (loadConfig_inv _ _ _ _ _ HL) as (d & -> & Hl).
+    destruct (loadConfig_inv _ _ _ _ _ HL) as (st & d & -> & Hl).
     destruct (load_filters _ _ _ _ _ Hl l Hin) as (Ha & Hc & Hcid & Hdoc).
     repeat split; auto; [eauto|].
     intros Hbits. simpl in Hbits.
@@ -257,9 +356,9 @@ Definition ex_rec_out : lease_rec :=
 Definition ex_doc_wide : doc := {| d_net1 := Some ex_net1_wide; d_net2 := Some ex_net2; d_leases := [ex_rec_out] |}.
 
 Lemma new_in_home_refuted :
-  exists s l, new ex_cfg (fun _ => false) (Doc ex_doc_wide) = Ok s /\ In l (d_table s)
+  exists s l, new ex_cfg (fun _ => false) (Doc SumAbsent ex_doc_wide) = Ok s /\ In l (d_table s)
               /\ contains (c_home ex_cfg) (r_ip (l_rec l)) = false
-              /\ known_C18_bits ex_cfg (Doc ex_doc_wide) = true.
+              /\ known_C18_bits ex_cfg (Doc SumAbsent ex_doc_wide) = true.
 Proof.
   eexists. exists {| l_rec := ex_rec_out; l_sub := 1 |}.
   split; [vm_compute; reflexivity|]. split; [left; reflexivity|]. split; vm_compute; reflexivity.
@@ -321,14 +420,15 @@ Qed.
 Lemma new_table_wf c cap i s : new c cap i = Ok s ->
   NoDup (map l_cid (d_table s))
   /\ (forall l, In l (d_table s) -> allocated l = true)
-  /\ known_C18_restart (d_n1 s) (d_table s) = false.
+  /\ known_C18_restart (d_table s) = false
+  /\ alloc_in_net1 (d_n1 s) (d_table s) = true.
 Proof.
   intros H.
   destruct (new_cases c cap i) as [[_ E]|[(Hok & _ & E)|[(Hok & _ & E)|(Hok & n1 & n2 & t & HL & C1 & C2 & E)]]];
     rewrite E in H; try discriminate.
   - destruct (reset_inv _ _ H) as (_ & _ & Ht). rewrite Ht. simpl. repeat split; [constructor|intros l []].
   - inversion H; subst; simpl.
-    destruct (loadConfig_inv _ _ _ _ _ HL) as (d & -> & Hl).
+    destruct (loadConfig_inv _ _ _ _ _ HL) as (st & d & -> & Hl).
     pose proof (load_filters _ _ _ _ _ Hl) as HF.
     destruct (load_inv _ _ _ _ _ Hl) as (_ & _ & ->).
     repeat split.
@@ -336,33 +436,37 @@ Proof.
     + intros l Hin. apply (HF l Hin).
     + unfold known_C18_restart. apply existsb_false. intros l Hin.
       destruct (HF l Hin) as (Ha & Hc & Hcid & _).
+      rewrite Ha. simpl.
+      destruct (r_cid (l_rec l)) as [|x xs]; [contradiction|reflexivity].
+    + unfold alloc_in_net1. apply forallb_forall. intros l Hin.
+      destruct (HF l Hin) as (Ha & Hc & Hcid & _).
       rewrite Ha, Hc. simpl.
       assert (Hv : avalid (r_ip (l_rec l)) = true) by (eapply contains_avalid; eauto).
-      rewrite Hv. simpl.
-      destruct (r_cid (l_rec l)) as [|x xs]; [contradiction|reflexivity].
+      rewrite Hv. reflexivity.
 Qed.
 
-Section Yaml2.
+Section Oracle2.
   Variable text : Type.
   Variable print : doc -> text.
-  Variable parse : text -> option doc.
+  Variable read : text -> input.
 
-  (* C18_restart_fixpoint (full strength): whatever the first input was (missing file, YAML error, ANY document),
-     saving the constructed state and constructing again gives the same subnets and the same bindings. *)
+  (* C18_restart_fixpoint (full strength): whatever the first input was (missing file, YAML error, checksum
+     mismatch, ANY document), saving the constructed state and constructing again gives the same subnets and
+     the same bindings. *)
   Lemma restart_fixpoint :
-    yaml_roundtrip text print parse ->
+    yaml_roundtrip text print read ->
     forall c cap0 i0 s cap,
       home_masked c ->
       new c cap0 i0 = Ok s ->
-      exists s', new c cap (input_of_text text parse (print (save (d_n1 s) (d_n2 s) (d_table s)))) = Ok s'
+      exists s', new c cap (read (print (save (d_n1 s) (d_n2 s) (d_table s)))) = Ok s'
                  /\ d_n1 s' = d_n1 s /\ d_n2 s' = d_n2 s
                  /\ bindings (d_table s') = bindings (d_table s).
   Proof.
     intros Hy c cap0 i0 s cap Hm Hnew.
-    destruct (new_table_wf _ _ _ _ Hnew) as (Hnd & Hall & Hk).
-    destruct (restart_partial text print parse Hy c cap0 i0 s cap (d_table s) (d_table s) Hm Hnew Hk Hnd (Permutation_refl _))
+    destruct (new_table_wf _ _ _ _ Hnew) as (Hnd & Hall & Hk & Hi).
+    destruct (restart_partial text print read Hy c cap0 i0 s cap (d_table s) (d_table s) Hm Hnew Hk Hi Hnd (Permutation_refl _))
       as (s' & E & E1 & E2 & Et & _).
     exists s'. repeat split; auto.
     rewrite Et, bindings_restored. unfold acked_bindings. rewrite (filter_all _ _ Hall). reflexivity.
   Qed.
-End Yaml2.
+End Oracle2.
